@@ -286,7 +286,8 @@ class ActivityAnalyzer(transformer.Base):
       if node.annotation is not None:
         node.annotation = self._process_annotation(node.annotation)
       return node
-    node = self.generic_visit(node)
+    # Declaration pass: the annotation was already processed in the defining
+    # scope and is not evaluated inside the function.
     if not anno.hasanno(node, anno.Basic.QN):
       return node
     qn = anno.getanno(node, anno.Basic.QN)
